@@ -314,8 +314,9 @@ def check_presence(sql, lexd, kind, d, calls):
                     marks.append(int(nums[-1]))
         if len(marks) > 1:
             posn = []
+            start = next((i for i, t in enumerate(toks) if t.kind == "WORD" and t.value == fam.upper()), 0)
             for m in marks:
-                idx = [i for i, t in enumerate(toks) if t.kind == "NUM" and t.value == m]
+                idx = [i for i, t in enumerate(toks) if i > start and t.kind == "NUM" and t.value == m]
                 posn.append(idx[0] if idx else -1)
             if -1 not in posn and posn != sorted(posn):
                 return "conjunct-order:%s" % fam.upper()
